@@ -1158,6 +1158,14 @@ func (db *DB) Repair(of Object) (err error) {
 		return
 	}
 
+	// objects waiting for their asynchronous write have no file yet, we
+	// must write them first not to take them for objects whose file is gone
+	if s.asyncWritesEnabled() {
+		if err = db.flushAll(of); err != nil {
+			return
+		}
+	}
+
 	// we re-index missing objects in index
 	if uuids, err = uuidsFromDir(dir); err != nil {
 		return
